@@ -82,7 +82,8 @@ impl Property for C18 {
         let preseed = (0..np).map(|_| t.below(n as u64) as usize).collect();
         let limit = 20 + t.below(280);
         let flags = t.raw() & 0x8d5;
-        let o = prog::ProgOpts::branchy();
+        let mut o = prog::ProgOpts::branchy();
+        o.w_extra = [8, 10, 5, 0];
         let mut p = vec![];
         for (i, row) in tape.iter().skip(1).enumerate() {
             let mut t = Tape::new(row);
@@ -104,6 +105,15 @@ impl Property for C18 {
             other => return CaseOut::fail("HARNESS-FAULT|C18-new".into(), other.short()),
         };
         init_regs(&mut ax, c.seed);
+        // most registers hold slot addresses, so that jmp/call through a register (without a reload) goes
+        // somewhere valid and the same indirect jump can run twice in a row with different targets
+        for (k, r) in prog::REGS.iter().enumerate() {
+            let v = crate::util::mix2(c.seed, 500 + k as u64);
+            if v % 10 < 7 && !c.prog.is_empty() {
+                let sr: ax_x86::state::registers::SupportedRegister = (*r).into();
+                ax.reg_write_64(sr, prog::slot_addr(BASE, (v >> 8) as usize % c.prog.len())).unwrap();
+            }
+        }
         let stack_len = if c.deep > 0 { 8 * c.deep + 0x1000 } else { 0x1000 };
         if let Err(e) = ax.init_stack(stack_len) {
             return CaseOut::fail("HARNESS-FAULT|C18-stack".into(), e.to_string());
